@@ -83,8 +83,23 @@ def oracle_bytes(ctx, n):
             samples.append({'oracle': 'C02 bytes', 'shape': k % 8, 'file_bytes': len(log.data), 'messages': len(log.msgs),
                             'head': log.data[:80].decode('latin1')})
         os.unlink(p)
+    # lines longer than the printers' 2056-byte buffer, as first lines and as continuation lines, mixed with short ones
+    # (default block size: a line part can only exceed the buffer when the block is larger than it)
+    for k in range(max(3, n // 8)):
+        log = e2e.gen_log(rng, rng.range(2, 4), maxlen=rng.pick([2500, 4000, 6000]), cont_prob=(3, 4), max_cont=3, weird=rng.chance(1, 2),
+                          final_newline=not rng.chance(1, 4))
+        p = os.path.join(ctx.work, 'c02_long_%d.log' % k)
+        open(p, 'wb').write(log.data)
+        exp = log.expected_bytes()
+        for extra in ([], ['--blocksz', '0x20000']):
+            rc, out, err, _ = run_plain(p, extra)
+            ev += 1
+            if rc != 0 or out != exp:
+                fails.append({'signature': 'bytes:stdout-differs-from-file-suffix', 'detail': f'long lines, args {extra} rc={rc} ' + first_diff(out, exp),
+                              'args': e2e.BASE_ARGS + extra + ['FILE'], 'file_hex': small_hex(log.data), 'shape': 'long-lines'})
+        os.unlink(p)
     return {'evaluations': ev, 'distinct_nontrivial': ev, 'failures': fails, 'samples': samples,
-            'rule': f'{n} generated text logs (8 shapes: final newline missing, CRLF, headless prefix, long continuation runs, '
+            'rule': f'{n} generated text logs (lines of up to 6000 bytes at the default block size; 8 shapes: final newline missing, CRLF, headless prefix, long continuation runs, '
                     '>8096 bytes, short messages, multi-block lines, NUL/non-UTF-8 bytes); stdout must equal the file suffix from the '
                     'first timestamped line; every case is distinct (fresh PRNG draw)'}
 
